@@ -785,8 +785,11 @@ where
         startup_args: TActor::Arguments,
         supervisor: Option<ActorCell>,
     ) -> Result<(ActorRef<TActor::Msg>, JoinHandle<()>), SpawnErr> {
-        // cannot start an actor more than once
-        if self.actor_ref.get_status() != ActorStatus::Unstarted {
+        // cannot start an actor more than once. A drain requested before the start task of an
+        // instant spawn ran leaves the actor `Draining`: it still has to start and work through
+        // the messages it accepted before the drain.
+        let status = self.actor_ref.get_status();
+        if status != ActorStatus::Unstarted && status != ActorStatus::Draining {
             return Err(SpawnErr::ActorAlreadyStarted);
         }
 
